@@ -71,7 +71,12 @@ def runLine (line : String) : String :=
             | some b => b
             | none => splitToks v.model == it
           s!"{boolTok agree} {boolTok v.oracle} {boolTok v.nontrivial} | {v.model} | {v.note}"
-        | none => "E | unparsable case"
+        | none =>
+          -- an implementation that panics where the handler expects an observation: no property
+          -- lets the daemon crash on an input it can be given (the handlers that model a panic of
+          -- the pinned tree — recorded findings — parse the token themselves)
+          if it == ["panic"] then "0 0 1 | ? | the implementation panicked on this input"
+          else "E | unparsable case"
       | none => s!"E | unknown op {op}"
     | [] => "E | empty case"
   | _ => "E | missing separator"
